@@ -331,3 +331,74 @@ package spg
 //@ func NewWLRecipe
 //@   ensures [C16] defaults: res != nil && fresh(res) && res.Length == length && res.Capitalize == "none" && res.SeparatorChar == "" &&
 //@        res.SeparatorFunc == nil && res.list == wl
+
+// ---------------------------------------------------------------- char_sets.go
+
+//@ func setFromString
+//@   requires [C03] utf8: utf8ok(s)
+//@   ensures [C02,C03] fresh:  res != nil && fresh(res)
+//@   ensures [C02,C03] elems:  forall(str(c), trig(incs(s, c)), elems(res)[c] == incs(s, c))
+//@   loop 1 invariant [C02] sofar:  forall(str(c), trig(elems(out)[c]), elems(out)[c] == exists(int(i), 0 <= i && i < it && at(s, i) == c))
+//@   loop 1 invariant [C02] same:   out != nil && fresh(out)
+
+//@ func stringFromSet
+//@   ensures [C02,C03] nil:    strSet == nil ==> res == ""
+//@   ensures [C02,C03] enum:   strSet != nil ==> utf8ok(res) && nodupS(res) &&
+//@        forall(str(c), trig(incs(res, c)), trig(elems(strSet)[c]), incs(res, c) == elems(strSet)[c])
+//@   loop 1 invariant [C02] enum: utf8ok(out) && nodupS(out) &&
+//@        forall(str(c), trig(incs(out, c)), trig(visited(c)), incs(out, c) == visited(c))
+//@   loop 1 invariant [C02] inset: forall(str(c), trig(visited(c)), visited(c) ==> elems(strSet)[c])
+
+//@ func newReqSet
+//@   requires [C03] utf8: utf8ok(s)
+//@   ensures [C02,C03] made: res != nil && fresh(res) && res.Name == name && res.s != nil && fresh(res.s) &&
+//@        forall(str(c), trig(incs(s, c)), elems(res.s)[c] == incs(s, c))
+
+//@ func (reqSet).size
+//@   ensures [C02,C03] size: (r.s == nil ==> res == 0) && (r.s != nil ==> res >= 0 && ((res == 0) == forall(str(c), trig(elems(r.s)[c]), !elems(r.s)[c])))
+
+//@ func (reqSets).union
+//@   requires [C02] nonnil: forall(int(j), trig(rs[j]), 0 <= j && j < len(rs) ==> rs[j].s != nil)
+//@   ensures [C02,C03] union: res.s != nil && fresh(res.s) &&
+//@        forall(str(c), trig(elems(res.s)[c]), elems(res.s)[c] == exists(int(j), 0 <= j && j < len(rs) && elems(rs[j].s)[c]))
+//@   loop 1 invariant [C02] sofar: u.s != nil && fresh(u.s) &&
+//@        forall(str(c), trig(elems(u.s)[c]), elems(u.s)[c] == exists(int(j), 0 <= j && j < it && elems(rs[j].s)[c]))
+
+//@ func (reqSets).size
+//@   requires [C02] nonnil: forall(int(j), trig(rs[j]), 0 <= j && j < len(rs) ==> rs[j].s != nil)
+//@   ensures [C02,C03,C07] size: res >= 0 && ((res == 0) == forall(int(j), str(c), 0 <= j && j < len(rs) ==> !elems(rs[j].s)[c]))
+
+//@ func requireFilter
+//@   define okset(j) = require[j].s == nil || forall(str(c), trig(elems(require[j].s)[c]), !elems(require[j].s)[c]) ||
+//@                     exists(str(c), elems(require[j].s)[c] && incs(pwd, c))
+//@   ensures [C02,C03] accept: res ==> forall(int(j), trig(require[j]), 0 <= j && j < len(require) ==> okset(j))
+//@   ensures [C02,C03] reject: !res ==> exists(int(j), 0 <= j && j < len(require) && !okset(j))
+//@   loop 1 invariant [C02] sofar: forall(int(j), trig(require[j]), 0 <= j && j < it ==> okset(j))
+
+// ---------------------------------------------------------------- char_gen.go
+
+//@ func (*CharRecipe).buildCharacterList
+//@   define okreq(j, pw) = forall(str(c), trig(elems(r.requiredSets[j].s)[c]), !elems(r.requiredSets[j].s)[c]) ||
+//@                         exists(str(c), elems(r.requiredSets[j].s)[c] && incs(pw, c))
+//@   requires [C03] recv:  r != nil
+//@   requires [C03] utf8:  utf8ok(r.AllowChars) && utf8ok(r.ExcludeChars) &&
+//@        forall(int(k), trig(r.RequireSets[k]), 0 <= k && k < len(r.RequireSets) ==> utf8ok(r.RequireSets[k]))
+//@   define same() = r.Length == old(r.Length) && r.Allow == old(r.Allow) && r.Require == old(r.Require) && r.Exclude == old(r.Exclude) &&
+//@                    r.AllowChars == old(r.AllowChars) && r.ExcludeChars == old(r.ExcludeChars) && r.RequireSets == old(r.RequireSets)
+//@   define reqok() = arrid(r.requiredSets) > old(alloc) && forall(int(j), trig(r.requiredSets[j]), 0 <= j && j < len(r.requiredSets) ==>
+//@                    r.requiredSets[j].s != nil && allocated(r.requiredSets[j].s))
+//@   modifies r.allowedSet, r.requiredSets
+//@   ensures [C02,C03,C15] fresh:   fresh(res) && fresh(r.requiredSets)
+//@   loop 1 invariant [C03] state:  same() && reqok()
+//@   loop 2 invariant [C03] state:  same() && reqok() && utf8ok(allowedChars) && utf8ok(excludedChars)
+//@   loop 3 invariant [C03] state:  same() && reqok()
+//@   loop 3 invariant [C03] allowed: r.allowedSet != nil && allocated(r.allowedSet)
+//@   loop 3 invariant [C03] misc:   excludedSet != nil && len(r.requiredSets) == entry(len(r.requiredSets))
+//@   ensures [C03,C13] sets:        r.allowedSet != nil && forall(int(j), trig(r.requiredSets[j]), 0 <= j && j < len(r.requiredSets) ==>
+//@        r.requiredSets[j].s != nil)
+//@   ensures [C02,C03] chars:       forall(int(k), trig(res[k]), 0 <= k && k < len(res) ==> clen(res[k]) == 1 && utf8ok(res[k]))
+//@   ensures [C02] nodup:           forall(int(i), int(j), trig(res[i], res[j]), 0 <= i && i < j && j < len(res) ==> res[i] != res[j])
+//@   trusted-ensures [C02,C03] alphabet: forall(str(c), (exists(int(k), 0 <= k && k < len(res) && res[k] == c)) ==
+//@        inA(old(*r), old(arr(r.RequireSets)), off(r.RequireSets), len(r.RequireSets), c))
+//@   trusted-ensures [C02,C03] filter: forall(str(pw), (forall(int(j), trig(r.requiredSets[j]), 0 <= j && j < len(r.requiredSets) ==> okreq(j, pw))) ==
+//@        meets(old(*r), old(arr(r.RequireSets)), off(r.RequireSets), len(r.RequireSets), pw))
